@@ -40,7 +40,12 @@ HAND = {
     "filters": "{% filter upper %}{{ xs|join('-') }}x{% endfilter %}{{ xs|map('abs')|list|sort|last|default(g, true) }}{{ (ys|first) is defined }}{{ ys|length + xs|length }}{% with q = g // 2 if c3 else g %}{{ rec('q', q) }}{% endwith %}",
     "uses": "{% include ['missing', 'part'] %}{% include 'missing' ignore missing %}{% if c0 %}{% include 'filters' without context %}{% endif %}{% import 'lib' as l with context %}{{ l.exported }}{{ l._hidden is defined }}",
 }
-HAND_MAIN = ["layout", "page", "tree", "filters", "uses", "part"]
+# names that differ only in letter case are different templates; identifiers may be non-ASCII
+HAND["Layout"] = "[{% block title %}other{% endblock %}|{{ g }}]"
+HAND["cases"] = "{% include 'Layout' %}{% include 'layout' %}{% include 'LAYOUT' ignore missing %}{% include ['PART', 'part'] %}"
+HAND["unicode"] = ("{% set größe = g + 1 %}{% macro übung(änderung, ß=2) %}{{ änderung }}{{ ß }}{{ größe }}{% endmacro %}{% block überschrift %}{{ übung(g) }}{% endblock %}"
+                   "{% for zähler in xs %}{{ zähler }}{{ loop.index }}{% endfor %}{{ self.überschrift() }}{% with ñ = ys|length %}{{ ñ }}{% endwith %}")
+HAND_MAIN = ["layout", "page", "tree", "filters", "uses", "part", "cases", "unicode", "Layout"]
 
 RENAME = [lambda n: n, lambda n: "sub/" + n + ".html", lambda n: "dïr/" + n.upper() + ".j2", lambda n: n + ".a.b/" + n]
 
@@ -48,6 +53,7 @@ P = {}
 SRC_ENV = None
 MOD_ENV = None
 NAMES = []
+SETUP_FAIL = []
 SCRATCH = [None]
 CUR = {"rec": None}
 
@@ -144,9 +150,14 @@ def setup(param):
     for e in (SRC_ENV, MOD_ENV):
         e.globals["rec"] = _rec
         e.globals["gl"] = 77
+    del SETUP_FAIL[:]
     for n in src:
         SRC_ENV.get_template(n)
-        MOD_ENV.get_template(n)   # imports the compiled module natively
+        try:
+            MOD_ENV.get_template(n)   # imports the compiled module natively
+        except Exception as e:
+            # a precompiled template that cannot be loaded although the source compiles is a violation, not a harness problem
+            SETUP_FAIL.append((n, type(e).__name__))
 
 
 def _norm(v):
@@ -177,6 +188,8 @@ def same_ok(cs: List[bool], xs: List[int], ys: List[int], g: int, dyn: int, whic
     pre: len(cs) == 4 and len(xs) <= MAXL() and len(ys) <= MAXL() and 0 <= dyn <= 2 and 0 <= which < NT()
     post: _
     """
+    if SETUP_FAIL:
+        return False
     name = NAMES[pick(which, len(NAMES))]
     rn = RENAME[P.get("rename", 0) % len(RENAME)]
     parent = [rn("t0"), rn("alt"), "nope"][pick(dyn, 3)]
@@ -204,6 +217,8 @@ def same_sel_ok(c0: bool, c1: bool, c2: bool, c3: bool, xi: int, yi: int, gi: in
     """
     from vfw.core import pickb
     from vfw.support import NoTracing
+    if SETUP_FAIL:
+        return False
     cs = [pickb(c0), pickb(c1), pickb(c2), pickb(c3)]
     xs = XS_T[pick(xi, len(XS_T))]
     ys = YS_T[pick(yi, len(YS_T))]
@@ -323,6 +338,8 @@ def module_ok(which: int) -> bool:
     """
     # static facts of the loaded template objects: same blocks, same exported module attributes, same debug info
     from vfw.support import NoTracing
+    if SETUP_FAIL:
+        return False
     name = NAMES[pick(which, len(NAMES))]
     with NoTracing():
         a = SRC_ENV.get_template(name)
@@ -353,7 +370,7 @@ def conditions(tier, seed):
     out = []
     W = [[[True, False, True, False], [5, 1], [2], 7, 0, 0], [[False] * 4, [], [], 0, 1, 0], [[True] * 4, [3], [6, 6], -3, 2, 0]]
     k = 0
-    for fam, n in (("hier", 120 if th else 16), ("set", 120 if th else 16), ("hand", 36 if th else 12)):
+    for fam, n in (("hier", 120 if th else 16), ("set", 120 if th else 16), ("hand", 54 if th else 18)):
         for i in range(n):
             pid = seed * 100000 + i
             k += 1
